@@ -98,7 +98,7 @@ class LoopStatement:
     def __init__(self, iterations, statements=None):
         if isinstance(iterations, float):
             # e.g. the value of a let constant
-            if iterations != int(iterations):
+            if not iterations.is_integer():
                 raise JaqalError(f"Loop count {iterations} is not an integer.")
             iterations = int(iterations)
         self._iterations = iterations
